@@ -8,7 +8,10 @@
     ("lay",  text)    a layout run: maximal sequence of whitespace characters and `// ...` comments
 The concatenation of the segment texts is the source.  Only "lay" segments are ever rewritten, and always to a
 non-empty run of space / tab / newline characters, optionally containing `// ...` comments each ended by a newline
-and preceded by at least one whitespace character - exactly the `relayout` relation of coq/Model/Layout.v.
+and preceded by at least one whitespace character - exactly the `relayout` relation of coq/Model/Layout.v - or
+(strengthening round 1) to a run whose FIRST comment is glued to the preceding token (`tp @s ~ ~1// up` + newline):
+legal wherever the preceding character is not `/` (Props/C15.v: C15_glued_comment), and, for the last run of a file,
+to a comment that is ended by the end of the file instead of a newline.
 """
 from __future__ import annotations
 
@@ -73,9 +76,53 @@ def join(segs) -> str:
     return "".join(t for _, t in segs)
 
 
-def relayout(src: str, fn) -> str:
-    """Rewrite every layout run r (with index k, bracket depth d and neighbours) to fn(k, d, r, prev_kind, next_kind).
-    fn must return a valid layout run (checked)."""
+class Ctx:
+    """What a context-aware re-layout function sees of a layout run: index k, bracket depth, the old run, the kinds of
+    the neighbouring segments, the last character before the run (`""` at the start of the file), the class of the
+    token the run follows (PREV_CLASSES) and whether a comment may be glued to it / may be ended by the end of file."""
+    __slots__ = ("k", "depth", "run", "prev_kind", "next_kind", "prev_last", "prev_class", "glue_ok", "eof_ok")
+
+
+PREV_CLASSES = ("start", "word", "number", "selector", "operator", "open", "round", "square", "curly", "string",
+                "semicolon", "comma", "hash", "slash")
+
+
+def prev_class(prev_kind, prev_text: str) -> str:
+    """class of the token a layout run follows (for the evidence: which kinds of tokens had a comment glued to them)"""
+    if prev_kind is None:
+        return "start"
+    if prev_kind == "str":
+        return "string"
+    if prev_kind == "hash":
+        return "hash"
+    c = prev_text[-1]
+    if c == "/":
+        return "slash"
+    if c in ")]}":
+        return {")": "round", "]": "square", "}": "curly"}[c]
+    if c == ";":
+        return "semicolon"
+    if c == ",":
+        return "comma"
+    if c in "({[":
+        return "open"
+    if c in "+-*><=%:!|&?\\":
+        return "operator"
+    j = len(prev_text)
+    while j > 0 and not (prev_text[j - 1] in "+-*/><=%:!|&?\\()[]{};," or prev_text[j - 1] in WS):
+        j -= 1
+    word = prev_text[j:]
+    if word.startswith("@"):
+        return "selector"
+    if word.lstrip("~^-.").replace(".", "").isdigit() or word in ("~", "^"):
+        return "number"
+    return "word"
+
+
+def relayout(src: str, fn, ctx: bool = False, stats: dict | None = None) -> str:
+    """Rewrite every layout run r (with index k, bracket depth d and neighbours) to fn(k, d, r, prev_kind, next_kind)
+    (ctx=False) or fn(Ctx) (ctx=True).  fn must return a valid layout run (checked).  `stats` (optional) counts, per
+    class of the preceding token, the runs that were given a comment glued to that token."""
     segs = segments(src)
     out = []
     depth = 0
@@ -84,8 +131,21 @@ def relayout(src: str, fn) -> str:
         if kind == "lay":
             prev_kind = segs[idx - 1][0] if idx > 0 else None
             next_kind = segs[idx + 1][0] if idx + 1 < len(segs) else None
-            new = fn(k, depth, text, prev_kind, next_kind)
-            assert is_layout_run(new), repr(new)
+            prev_last = segs[idx - 1][1][-1:] if idx > 0 else ""
+            glue_ok = prev_last != "/"
+            eof_ok = next_kind is None
+            if ctx:
+                c = Ctx()
+                c.k, c.depth, c.run, c.prev_kind, c.next_kind, c.prev_last = k, depth, text, prev_kind, next_kind, prev_last
+                c.prev_class = prev_class(prev_kind, segs[idx - 1][1] if idx > 0 else "")
+                c.glue_ok, c.eof_ok = glue_ok, eof_ok
+                new = fn(c)
+                assert is_layout_run(new, glue_ok, eof_ok), repr(new)
+                if stats is not None and new.startswith("//"):
+                    stats[c.prev_class] = stats.get(c.prev_class, 0) + 1
+            else:
+                new = fn(k, depth, text, prev_kind, next_kind)
+                assert is_layout_run(new), repr(new)
             # a `#` line comment must stay at the start of a line / must not swallow what follows
             if next_kind == "hash" and not new.endswith("\n"):
                 new += "\n"
@@ -102,9 +162,9 @@ def relayout(src: str, fn) -> str:
     return "".join(out)
 
 
-def is_layout_run(r: str) -> bool:
-    """non-empty; starts with whitespace (or is the file's own original run); every `//` comment preceded by
-    whitespace and ended by a newline"""
+def is_layout_run(r: str, glue_ok: bool = False, eof_ok: bool = False) -> bool:
+    """non-empty; every `//` comment ended by a newline (or, if eof_ok, by the end of the run = end of the file) and
+    preceded by whitespace (or, if glue_ok, standing at the very start of the run = glued to the preceding token)"""
     if not r:
         return False
     i = 0
@@ -113,11 +173,11 @@ def is_layout_run(r: str) -> bool:
         if c in " \t\n":
             i += 1
         elif r.startswith("//", i):
-            if i == 0:
+            if i == 0 and not glue_ok:
                 return False
             j = r.find("\n", i)
             if j < 0:
-                return False
+                return eof_ok
             i = j + 1
         else:
             return False
@@ -126,9 +186,53 @@ def is_layout_run(r: str) -> bool:
 
 COMMENT_TEXTS = ["c", "note", "see a/b/", "TODO: fix (later)", "it's \"quoted\" [x {y", "x = 1; y", "", "a // b", "tail)", "/"]
 
+# comment CONTENT by what it contains (strengthening round 1); every text is used with and without a blank after `//`
+NASTY_COMMENTS = {
+    "ends_in_slash": ["see a/b/", "/", "x /"],
+    "slashes_again": ["a // b", "//", "///", "/ / /"],
+    "quotes": ["it's", "say \"hi", "'", "\"", "it's \"quoted\" [x {y", "`tick"],
+    "brackets": ["tail)", "}", "]", "{", "(", "f(x[0]{", ")]}"],
+    "hash": ["#", "# not a directive", "#define N 1"],
+    "semicolon": ["x = 1; y", ";", "$x += 1;"],
+    "backslash": ["\\", "ends with a backslash \\", "C:\\path\\n", "\\\""],
+    "operators": ["=", "= 3", "*/", "/* block */", "=> {", "&& ||"],
+    "code_like": ["$x += 1", "@s ~ ~ ~", "function f() {", "http://example.com/a?b=c#d", "Hardcode.calc(1+1)"],
+    "non_ascii": ["\u00e9\u00fc \u2014 \u2713", "\u65e5\u672c\u8a9e", "caf\u00e9 //\u00a0x"],
+    "blank": ["", " ", "\t tab"],
+}
 
-def layouts(rng):
-    """name -> function(src) -> re-laid-out source.  Each call of a random layout draws from rng."""
+
+def layouts(rng, stats: dict | None = None):
+    """name -> function(src) -> re-laid-out source.  Each call of a random layout draws from rng.  `stats` (optional)
+    receives counts: stats["glued_after"][class of preceding token], stats["content"][content class]."""
+    if stats is None:
+        stats = {}
+    glued_after = stats.setdefault("glued_after", {})
+    content_n = stats.setdefault("content", {})
+    frames = stats.setdefault("frames", {})
+
+    def comment(nasty: bool) -> str:
+        """`//` + text (no newline)"""
+        if nasty:
+            cls = rng.choice(sorted(NASTY_COMMENTS))
+            t = rng.choice(NASTY_COMMENTS[cls])
+        else:
+            cls = "plain"
+            t = rng.choice(COMMENT_TEXTS[:4])
+        content_n[cls] = content_n.get(cls, 0) + 1
+        return "//" + rng.choice(["", " "]) + t
+
+    def frame(src: str, out: str, nasty: bool) -> str:
+        """a comment line before the first token and a comment ended by the end of the file after the last one
+        (`adding // comments at line ends`: the first and the last line of a file are lines too)"""
+        segs = segments(out)
+        if segs and segs[0][0] != "lay":
+            out = comment(nasty) + "\n" + out
+            frames["leading_comment_line"] = frames.get("leading_comment_line", 0) + 1
+        if segs and segs[-1][0] != "lay" and not out.endswith("/"):
+            out = out + comment(nasty)
+            frames["glued_comment_at_eof"] = frames.get("glued_comment_at_eof", 0) + 1
+        return out
 
     def single_line(src):
         return relayout(src, lambda k, d, r, p, n: " ")
@@ -167,8 +271,53 @@ def layouts(rng):
             return " // " + rng.choice(COMMENT_TEXTS) + "\n"
         return relayout(src, f)
 
+    # ---- strengthening round 1: comments glued to the preceding token, nasty comment content, file frame
+    def glued_comments(src):
+        """EVERY run becomes a comment glued to the token before it (where that token does not end in `/`): each
+        statement is continued over as many lines as it has tokens"""
+        def f(c):
+            tail = "\n" + " " * rng.choice([0, 0, 2])
+            return (comment(False) if c.glue_ok else " " + comment(False)) + tail
+        return relayout(src, f, ctx=True, stats=glued_after)
+
+    def glued_some(src):
+        """one run in four gets a glued comment, the others keep their text: statements continued over two or three lines"""
+        def f(c):
+            if rng.random() < 0.25 and c.glue_ok:
+                return comment(rng.random() < 0.3) + "\n" + " " * rng.choice([0, 4])
+            return c.run if is_layout_run(c.run, c.glue_ok, c.eof_ok) else " "
+        return relayout(src, f, ctx=True, stats=glued_after)
+
+    def nasty_comments(src):
+        """every run gets a comment with nasty content (ending in `/`, quotes, brackets, `#`, `;`, backslashes, `//`,
+        non-ASCII), glued or after a blank; plus a leading comment line and a comment ended by the end of the file"""
+        def f(c):
+            glue = c.glue_ok and rng.random() < 0.5
+            cm = comment(True)
+            if c.eof_ok and rng.random() < 0.5:
+                return (cm if glue else rng.choice([" ", "\t", "\n"]) + cm)
+            return (cm if glue else rng.choice([" ", "\t", "  "]) + cm) + "\n" + rng.choice(["", "", "\t", "\n"])
+        return frame(src, relayout(src, f, ctx=True, stats=glued_after), True)
+
     return {
         "single_line": single_line, "token_per_line": token_per_line, "random_runs": random_runs, "tabs": tabs,
         "trailing_comments": trailing_comments, "newline_in_brackets": newline_in_brackets, "wide": wide,
-        "mixed_comments": mixed_comments,
+        "mixed_comments": mixed_comments, "glued_comments": glued_comments, "glued_some": glued_some,
+        "nasty_comments": nasty_comments,
     }
+
+
+def aligned_segments(base_src: str, new_src: str):
+    """segments of base and of a re-layout of it, made comparable: a re-layout may add a layout run before the first
+    and after the last token of the file (file frame); the base gets an EMPTY layout run there.  None if the two texts
+    are not re-layouts of each other."""
+    a, b = segments(base_src), segments(new_src)
+    if b and b[0][0] == "lay" and (not a or a[0][0] != "lay"):
+        a = [("lay", "")] + a
+    if b and b[-1][0] == "lay" and (not a or a[-1][0] != "lay"):
+        a = a + [("lay", "")]
+    if [k for k, _ in a] != [k for k, _ in b]:
+        return None
+    if any(k != "lay" and t != u for (k, t), (_, u) in zip(a, b)):
+        return None
+    return a, b
